@@ -1141,8 +1141,8 @@ fn oracle(f: &Forest, split: bool, filtered: &Conv, unfiltered: &Conv, fo: Optio
     let restrict = |s: BTreeSet<usize>| -> BTreeSet<usize> { if split { s.into_iter().filter(|i| f.entries[*i].unit == 0).collect() } else { s } };
     match (filtered, unfiltered) {
         (Conv::WriteErr(e), _) => {
-            // recorded finding C19-4: a DIE of the converted split unit references (by section
-            // offset) a DIE of a later unit of the split section
+            // name the behaviour of the repaired finding C19-4 (fix aa527e6): a DIE of the converted
+            // split unit references (by section offset) a DIE of a later unit of the split section
             fn info_tgt(op: &AOp) -> Option<usize> {
                 match op {
                     AOp::CallRef(Tgt::Ent(i)) | AOp::ImplPtr(Tgt::Ent(i)) | AOp::VarVal(Tgt::Ent(i)) => Some(*i),
@@ -1323,7 +1323,8 @@ struct Style {
     /// references, unit roots that reference DIEs — are generated in every stream now)
     finding_kinds: bool,
     /// split sections: the first unit does not reference DIEs of later units by section offset
-    /// (such a reference is recorded finding C19-4); later units still reference the first
+    /// (such a reference makes both split conversions fail with InvalidDebugInfoRef; before fix
+    /// aa527e6 the filtered one failed in write: finding C19-4); later units still reference the first
     split_clean: bool,
 }
 
